@@ -109,48 +109,62 @@ type c20BRCfg struct {
 	bitsLWE         []int
 	hw              int
 	noTie           bool // probes only (ring degrees too large for the interpreted model)
+	keyLq           int  // LevelQ of the blind-rotation keys (-1: maximum)
+	lweCoeff        bool // LWE parameters with NTTFlag = false (samples in the coefficient domain)
 }
 
 func c20BRConfigs(c *Ctx) (out []c20BRCfg) {
 	// rlwe.MinLogN = 4: the smallest LWE ring has degree 16
 	if !c.Thorough() {
 		return []c20BRCfg{
-			{4, 4, []int{27}, []int{40}, 7, []int{14}, 2, false},
-			{5, 4, []int{27}, []int{40}, 7, []int{14}, 5, false},
-			{4, 4, []int{30}, []int{41}, 0, []int{14}, 3, false},
-			{4, 4, []int{27}, nil, 7, []int{14}, 2, false}, // the shape of blindrot_test.go: no auxiliary modulus
-			{4, 4, []int{28, 30}, []int{40, 41}, 0, []int{13}, 1, false},
+			{4, 4, []int{27}, []int{40}, 7, []int{14}, 2, false, -1, false},
+			{5, 4, []int{27}, []int{40}, 7, []int{14}, 5, false, -1, false},
+			{4, 4, []int{30}, []int{41}, 0, []int{14}, 3, false, -1, false},
+			{4, 4, []int{27}, nil, 7, []int{14}, 2, false, -1, false}, // the shape of blindrot_test.go: no auxiliary modulus
+			{4, 4, []int{28, 30}, []int{40, 41}, 0, []int{13}, 1, false, -1, false},
 			// large LWE moduli: q*2N_BR >= 2^64 (the modulus switch must not be done on 64-bit words), multi-limb
-			{4, 4, []int{27}, []int{40}, 7, []int{61}, 3, false},
-			{4, 4, []int{27}, []int{40}, 7, []int{31, 32}, 2, false},
-			{10, 4, []int{27}, []int{40}, 7, []int{55}, 2, true},
+			{4, 4, []int{27}, []int{40}, 7, []int{61}, 3, false, -1, false},
+			{4, 4, []int{27}, []int{40}, 7, []int{31, 32}, 2, false, -1, false},
+			{10, 4, []int{27}, []int{40}, 7, []int{55}, 2, true, -1, false},
+			// LWE parameters with NTTFlag = false; blind-rotation keys below the maximum level
+			{4, 4, []int{27}, []int{40}, 7, []int{14}, 3, false, -1, true},
+			{4, 4, []int{27, 30}, []int{41}, 7, []int{14}, 2, false, 0, false},
 		}
 	}
+	out = append(out,
+		c20BRCfg{4, 4, []int{27}, []int{40}, 7, []int{14}, 3, false, -1, true},
+		c20BRCfg{5, 4, []int{30}, []int{41}, 0, []int{14, 15}, 2, false, -1, true},
+		c20BRCfg{4, 4, []int{27}, nil, 7, []int{20}, 4, false, -1, true},
+		c20BRCfg{4, 4, []int{27, 30}, []int{41}, 7, []int{14}, 2, false, 0, false},
+		c20BRCfg{4, 4, []int{28, 30, 31}, []int{40, 41}, 0, []int{14}, 3, false, 1, true},
+		c20BRCfg{4, 4, []int{28, 30, 31}, []int{40, 41}, 0, []int{14}, 3, false, 0, false},
+		c20BRCfg{4, 4, []int{27, 33}, nil, 7, []int{14}, 2, false, 0, false},
+	)
 	for _, bl := range [][]int{{50}, {55}, {58}, {59}, {60}, {61}, {30, 31}, {45, 40}, {60, 61}, {20, 21, 22}} {
-		out = append(out, c20BRCfg{4, 4, []int{27}, []int{40}, 7, bl, 3, false})
+		out = append(out, c20BRCfg{4, 4, []int{27}, []int{40}, 7, bl, 3, false, -1, false})
 	}
 	out = append(out,
-		c20BRCfg{10, 4, []int{27}, []int{40}, 7, []int{55}, 2, true},
-		c20BRCfg{10, 5, []int{27}, []int{40}, 7, []int{53}, 4, true},
-		c20BRCfg{9, 4, []int{27}, []int{40}, 7, []int{54, 55}, 3, true},
+		c20BRCfg{10, 4, []int{27}, []int{40}, 7, []int{55}, 2, true, -1, false},
+		c20BRCfg{10, 5, []int{27}, []int{40}, 7, []int{53}, 4, true, -1, false},
+		c20BRCfg{9, 4, []int{27}, []int{40}, 7, []int{54, 55}, 3, true, -1, false},
 	)
 	for _, hw := range []int{0, 1, 2, 4, 8, 16} {
-		out = append(out, c20BRCfg{4, 4, []int{27}, []int{40}, 7, []int{14}, hw, false})
+		out = append(out, c20BRCfg{4, 4, []int{27}, []int{40}, 7, []int{14}, hw, false, -1, false})
 	}
 	for _, hw := range []int{1, 3, 16} {
-		out = append(out, c20BRCfg{5, 4, []int{30}, []int{41}, 0, []int{14}, hw, false})
+		out = append(out, c20BRCfg{5, 4, []int{30}, []int{41}, 0, []int{14}, hw, false, -1, false})
 	}
 	for _, w := range []int{4, 12, 16, 20} {
-		out = append(out, c20BRCfg{4, 4, []int{30}, []int{42}, w, []int{14}, 3, false})
+		out = append(out, c20BRCfg{4, 4, []int{30}, []int{42}, w, []int{14}, 3, false, -1, false})
 	}
 	out = append(out,
-		c20BRCfg{4, 4, []int{27}, nil, 7, []int{14}, 2, false},
-		c20BRCfg{4, 4, []int{27}, nil, 0, []int{14}, 2, false},
-		c20BRCfg{4, 4, []int{30, 31}, nil, 12, []int{14}, 2, false},
-		c20BRCfg{4, 4, []int{28, 30}, []int{40, 41}, 0, []int{13}, 2, false},
-		c20BRCfg{5, 4, []int{27}, []int{40}, 7, []int{14, 15}, 4, false},
-		c20BRCfg{5, 5, []int{29, 33}, []int{41}, 12, []int{16}, 6, false},
-		c20BRCfg{6, 4, []int{27}, []int{40}, 7, []int{14}, 5, false},
+		c20BRCfg{4, 4, []int{27}, nil, 7, []int{14}, 2, false, -1, false},
+		c20BRCfg{4, 4, []int{27}, nil, 0, []int{14}, 2, false, -1, false},
+		c20BRCfg{4, 4, []int{30, 31}, nil, 12, []int{14}, 2, false, -1, false},
+		c20BRCfg{4, 4, []int{28, 30}, []int{40, 41}, 0, []int{13}, 2, false, -1, false},
+		c20BRCfg{5, 4, []int{27}, []int{40}, 7, []int{14, 15}, 4, false, -1, false},
+		c20BRCfg{5, 5, []int{29, 33}, []int{41}, 12, []int{16}, 6, false, -1, false},
+		c20BRCfg{6, 4, []int{27}, []int{40}, 7, []int{14}, 5, false, -1, false},
 	)
 	return
 }
@@ -208,7 +222,7 @@ func c20GenBlindRot(c *Ctx) {
 			c.Count("br:params-rejected")
 			continue
 		}
-		psL, err := c20NewPS(cfg.logNLWE, QL, nil)
+		psL, err := c20NewPSFlag(cfg.logNLWE, QL, nil, !cfg.lweCoeff)
 		if err != nil {
 			c.Count("br:params-rejected")
 			continue
@@ -216,6 +230,12 @@ func c20GenBlindRot(c *Ctx) {
 		N, NL := psBR.N(), psL.N()
 		twoN := uint64(2 * N)
 		lq, lp, w := len(Q)-1, len(P)-1, cfg.w
+		if cfg.keyLq >= 0 {
+			lq = cfg.keyLq
+		}
+		Qfull := Q
+		Q = Q[:lq+1] // the moduli of the key level: everything below (test polynomials, probes) lives there
+		_ = Qfull
 		c.Count(fmt.Sprintf("br:cfg NBR=%d NLWE=%d nQ=%d nP=%d w=%d hw=%d", N, NL, len(Q), len(P), w, cfg.hw))
 
 		kgenL := rlwe.NewKeyGenerator(psL.params)
@@ -233,6 +253,9 @@ func c20GenBlindRot(c *Ctx) {
 
 		// ---- key generation, twin replay of the RGSW keys ----
 		evkParams := rlwe.EvaluationKeyParameters{BaseTwoDecomposition: utils.Pointy(w)}
+		if cfg.keyLq >= 0 {
+			evkParams.LevelQ = utils.Pointy(cfg.keyLq)
+		}
 		mark := RandMark()
 		BRK := blindrot.GenEvaluationKeyNew(psBR.params, skBR, psL.params, skL, evkParams)
 		keys := RandKeysSince(mark)
@@ -270,7 +293,7 @@ func c20GenBlindRot(c *Ctx) {
 
 		// ---- test polynomials ----
 		fns := c20Functions(c, N)
-		ringQBR := psBR.params.RingQ()
+		ringQBR := psBR.params.RingQ().AtLevel(lq)
 		type tp struct {
 			fn    c20Fn
 			poly  ring.Poly
@@ -354,6 +377,7 @@ func c20GenBlindRot(c *Ctx) {
 
 		// ---- evaluations ----
 		evalBR := blindrot.NewEvaluator(psBR.params, psL.params)
+		c20BRCore(c, psBR, psL, evalBR, BRK, skBR, sBR, sL, tps[ci%len(tps)].poly, w)
 		QLb := c20ProdBig(QL)
 		llq := len(QL) - 1
 		// grid points k in [-N/2, N/2], NL of them per LWE sample
@@ -395,7 +419,7 @@ func c20GenBlindRot(c *Ctx) {
 					}
 				}
 				ctL := psL.mkCt(skL, psL.rowsFromBig(mv, llq), c1)
-				if (call+fi)%3 == 2 {
+				if ((call+fi)%3 == 2) != cfg.lweCoeff {
 					psL.params.RingQ().AtLevel(llq).INTT(ctL.Value[0], ctL.Value[0])
 					psL.params.RingQ().AtLevel(llq).INTT(ctL.Value[1], ctL.Value[1])
 					ctL.IsNTT = false
@@ -458,7 +482,7 @@ func c20BREvaluate(c *Ctx, psBR, psL *c20PS, evalBR *blindrot.Evaluator, BRK bli
 
 	N, NL := psBR.N(), psL.N()
 	twoN := uint64(2 * N)
-	lq, lp := len(psBR.Q)-1, len(psBR.P)-1
+	lq, lp := BRK.BlindRotationKeys[0].LevelQ(), BRK.BlindRotationKeys[0].LevelP()
 	llq := len(psL.Q) - 1
 	QLb := c20ProdBig(psL.Q)
 
@@ -469,6 +493,20 @@ func c20BREvaluate(c *Ctx, psBR, psL *c20PS, evalBR *blindrot.Evaluator, BRK bli
 		tpm[i] = &F
 	}
 	inRows := psL.ctPolys(ctL, llq)
+	snap := func() map[string]string {
+		m := map[string]string{"sample": c20SnapCt(ctL), "testPoly": c20SnapPoly(F)}
+		var x c20Hasher
+		for _, k := range BRK.BlindRotationKeys {
+			c20SnapGadget(&x, &k.Value[0])
+			c20SnapGadget(&x, &k.Value[1])
+		}
+		for _, gk := range BRK.AutomorphismKeys {
+			c20SnapGadget(&x, &gk.GadgetCiphertext)
+		}
+		m["keys"] = fmt.Sprintf("%x", x.h)
+		return m
+	}
+	before := snap()
 	var res map[int]*rlwe.Ciphertext
 	var err error
 	out := Try(func() string {
@@ -478,6 +516,8 @@ func c20BREvaluate(c *Ctx, psBR, psL *c20PS, evalBR *blindrot.Evaluator, BRK bli
 		}
 		return "ok"
 	})
+	c20Unchanged(c, "blindrot_inputs_unchanged", fmt.Sprintf("n=%d nl=%d ntt=%d lweNTTFlag=%d slots=%d seed=%d line=%d", N, NL, c20B2i(ctL.IsNTT), c20B2i(!cfg.lweCoeff), len(idxs), c.Seed, c.N),
+		"blindrot-input-mutated", before, snap())
 	c.Count("br:evaluate=" + out)
 	c.Count("br:fn=" + fn.name)
 	c.Count(fmt.Sprintf("br:slots=%d/%d ntt=%v", len(idxs), NL, ctL.IsNTT))
@@ -495,6 +535,29 @@ func c20BREvaluate(c *Ctx, psBR, psL *c20PS, evalBR *blindrot.Evaluator, BRK bli
 		}
 	}
 
+	// ---- the same sample once more, same evaluator: identical results (the sample is an input) ----
+	{
+		detail := ""
+		var res2 map[int]*rlwe.Ciphertext
+		o2 := Try(func() string {
+			var e2 error
+			res2, e2 = evalBR.Evaluate(ctL, tpm, BRK)
+			if e2 != nil {
+				return "err"
+			}
+			return "ok"
+		})
+		if o2 != "ok" {
+			detail = "second Evaluate -> " + o2
+		} else {
+			for _, i := range idxs {
+				if c20Polys(psBR.ctPolys(res[i], lq)) != c20Polys(psBR.ctPolys(res2[i], lq)) && detail == "" {
+					detail = fmt.Sprintf("slot %d: the second blind rotation of the same sample differs from the first (ntt=%v)", i, ctL.IsNTT)
+				}
+			}
+		}
+		c.Probe("blindrot_evaluate_twice", fmt.Sprintf("n=%d nl=%d ntt=%d slots=%d seed=%d line=%d", N, NL, c20B2i(ctL.IsNTT), len(idxs), c.Seed, c.N), "blindrot-input-mutated", detail)
+	}
 	// ---- split the log per slot: "m0" (the level probe of Evaluate), then per slot "evk" + operations ----
 	var perSlot [][]string
 	for i, ev := range log {
@@ -647,7 +710,7 @@ func c20BREvaluate(c *Ctx, psBR, psL *c20PS, evalBR *blindrot.Evaluator, BRK bli
 	fast := lp == -1 && lq == 0 && c20Acc32Fits(psBR.Q[0], shape[0])
 	dsum, recomb := psBR.digitSum(lq, lp, w, shape, fast)
 	bep := psBR.extProdNoiseBound(lq, lp, dsum, c20L1(sBR))
-	Qb := c20ProdBig(psBR.Q)
+	Qb := c20ProdBig(psBR.Q[:lq+1])
 	Fc := make([]*big.Int, N)
 	for i := 0; i < N; i++ {
 		col := make([]uint64, lq+1)
@@ -670,6 +733,10 @@ func c20BREvaluate(c *Ctx, psBR, psL *c20PS, evalBR *blindrot.Evaluator, BRK bli
 		return out
 	}
 	hL1 := c20L1(sL)
+	levelDetail := ""
+	defer func() {
+		c.Probe("blindrot_result_level", fmt.Sprintf("n=%d nl=%d keyLevelQ=%d maxLevelQ=%d seed=%d", N, NL, lq, len(psBR.Q)-1, c.Seed), "blindrot-result-level", levelDetail)
+	}()
 	for si, idx := range idxs {
 		eStar := B[idx] + AS[idx]
 		// classes of mask coefficients the code treats differently from their value
@@ -696,6 +763,14 @@ func c20BREvaluate(c *Ctx, psBR, psL *c20PS, evalBR *blindrot.Evaluator, BRK bli
 		bound := new(big.Int).Mul(bep, big.NewInt(int64(len(perSlot[si])+1)))
 		phase := psBR.phaseBig(res[idx], skBR, lq)
 		want := rot(eStar)
+		if rl := res[idx].Level(); rl != lq && levelDetail == "" {
+			levelDetail = fmt.Sprintf("slot %d: result reports level %d, the blind-rotation keys are at level %d", idx, rl, lq)
+			if rl > lq && rl < len(psBR.Q) {
+				Qfull := c20ProdBig(psBR.Q[:rl+1])
+				nf := c20DistModQ(psBR.phaseBig(res[idx], skBR, rl), want, Qfull)
+				levelDetail += fmt.Sprintf("; decrypted at the reported level it is off by 2^%d (modulus 2^%d), at the key level by %s", nf.BitLen(), Qfull.BitLen(), c20DistModQ(phase, want, Qb))
+			}
+		}
 		noise := c20DistModQ(phase, want, Qb)
 		key := "blindrot-exponent"
 		switch {
@@ -770,4 +845,94 @@ func c20BREvaluate(c *Ctx, psBR, psL *c20PS, evalBR *blindrot.Evaluator, BRK bli
 		// the exact end point: f(b) itself (no drift allowance towards the wrap-around)
 		c.Probe("blindrot_lookup", pa, key2, d2)
 	}
+}
+
+// c20BRCore: the entry point BlindRotateCore called directly: acc = (phi_{2N-5}(F*X^b), 0), a mask with odd, zero and
+// 2N-1 entries.  Probes: the mask, the keys are unchanged; the accumulator decrypts to F*X^(b + <a, s>).
+func c20BRCore(c *Ctx, psBR, psL *c20PS, evalBR *blindrot.Evaluator, BRK blindrot.MemBlindRotationEvaluationKeySet,
+	skBR *rlwe.SecretKey, sBR, sL []int64, F ring.Poly, w int) {
+	N, NL := psBR.N(), psL.N()
+	twoN := uint64(2 * N)
+	lq, lp := BRK.BlindRotationKeys[0].LevelQ(), BRK.BlindRotationKeys[0].LevelP()
+	ringQ := psBR.params.RingQ().AtLevel(lq)
+	a := make([]uint64, NL)
+	for j := range a {
+		switch c.rng.Intn(8) {
+		case 0:
+			a[j] = 0
+		case 1:
+			a[j] = twoN - 1
+		case 2:
+			a[j] = 1
+		default:
+			a[j] = uint64(2*c.rng.Intn(N)) + 1
+		}
+	}
+	b := c.rng.Intn(2 * N)
+	acc := rlwe.NewCiphertext(psBR.params, 1, psBR.params.MaxLevel())
+	acc.IsNTT = true
+	Xb := ringQ.NewMonomialXi(b)
+	ringQ.NTT(Xb, Xb)
+	ringQ.MForm(Xb, Xb)
+	tmp := ringQ.NewPoly()
+	ringQ.MulCoeffsMontgomery(F, Xb, tmp)
+	ringQ.AutomorphismNTT(tmp, ringQ.NthRoot()-ring.GaloisGen, acc.Value[0])
+	aCopy := append([]uint64(nil), a...)
+	var x0 c20Hasher
+	for _, k := range BRK.BlindRotationKeys {
+		c20SnapGadget(&x0, &k.Value[0])
+		c20SnapGadget(&x0, &k.Value[1])
+	}
+	out := Try(func() string {
+		if err := evalBR.BlindRotateCore(a, acc, BRK); err != nil {
+			return "err"
+		}
+		return "ok"
+	})
+	var x1 c20Hasher
+	for _, k := range BRK.BlindRotationKeys {
+		c20SnapGadget(&x1, &k.Value[0])
+		c20SnapGadget(&x1, &k.Value[1])
+	}
+	c20Unchanged(c, "blindrot_inputs_unchanged", fmt.Sprintf("n=%d nl=%d entry=BlindRotateCore seed=%d line=%d", N, NL, c.Seed, c.N), "blindrot-input-mutated",
+		map[string]string{"a": Vec(aCopy), "keys": fmt.Sprintf("%x", x0.h)}, map[string]string{"a": Vec(a), "keys": fmt.Sprintf("%x", x1.h)})
+	detail := ""
+	if out != "ok" {
+		detail = "BlindRotateCore -> " + out
+	} else {
+		e := int64(b)
+		for j := range a {
+			e += int64(a[j]) * sL[j]
+		}
+		ee := int(((e % int64(twoN)) + int64(twoN)) % int64(twoN))
+		// F * X^ee
+		Frows := psBR.canonQ(F, lq, true, false)
+		want := make([]*big.Int, N)
+		for i := 0; i < N; i++ {
+			col := make([]uint64, lq+1)
+			for k := range col {
+				col[k] = Frows[k][i]
+			}
+			v := c20CRTCentered(col, psBR.Q[:lq+1])
+			k := (i + ee) % (2 * N)
+			if k < N {
+				want[k] = v
+			} else {
+				want[k-N] = new(big.Int).Neg(v)
+			}
+		}
+		shape := c20Shape(BRK.BlindRotationKeys[0])
+		fast := lp == -1 && lq == 0 && c20Acc32Fits(psBR.Q[0], shape[0])
+		dsum, _ := psBR.digitSum(lq, lp, w, shape, fast)
+		bound := psBR.extProdNoiseBound(lq, lp, dsum, c20L1(sBR))
+		bound.Mul(bound, big.NewInt(int64(2*NL+2*N)))
+		Qb := c20ProdBig(psBR.Q[:lq+1])
+		noise := c20DistModQ(psBR.phaseBig(acc, skBR, lq), want, Qb)
+		if new(big.Int).Lsh(bound, 2).Cmp(Qb) >= 0 {
+			c.Count("blindrot_core:vacuous-bound")
+		} else if noise.Cmp(bound) > 0 {
+			detail = fmt.Sprintf("exponent=%d noise=%s bound=%s", ee, noise, bound)
+		}
+	}
+	c.Probe("blindrot_core_exponent", fmt.Sprintf("n=%d nl=%d a=%s b=%d seed=%d line=%d", N, NL, Vec(aCopy), b, c.Seed, c.N), "blindrot-exponent", detail)
 }
